@@ -370,6 +370,7 @@ def run_property(prop, tier, seed):
         units.append(('slices',))
         for fr, lab in ((slice(2, 8), 'slice(2,8)'), ([5, 1, 9, 1], 'list [5,1,9,1]'), (Ellipsis, 'Ellipsis'), ([2, 4, 3, 5], 'list [2,4,3,5]')):
             for npp in (0, 1, 2): units.append(('wrapper', fr, lab, npp))
+        for fr, lab in ((range(2, 8), 'range(2,8)'), (range(5, -1, -1), 'range(5,-1,-1)'), (range(9, 0, -3), 'range(9,0,-3)'), (slice(7, None, -2), 'slice(7,None,-2)')): units.append(('wrapper', fr, lab, 1))
         units.append(('bsize',))
         for kn in ('CPAAttack', 'CPAReverse'):
             for gen in (False, True): units.append(('run', kn, False, gen))
